@@ -128,7 +128,7 @@ UNITS.append(dataclass_unit("C09"))
 VERIFIED_CALLEES = ()
 LEVEL = "other"
 TECHNIQUE = "contract-based deductive verification of per-operation frame conditions (context variables restored on every exit; pending print_config request), VCs from the real AST + bounded comparison of operation histories with fresh parsers"
-LEVEL_TEXT = 'Reduction: if every operation restores the state it touches, outcomes cannot depend on the history (induction on its length). Verified: each of the eight @contextmanager helpers that set a ContextVar restores it on the normal and on the exceptional exit; print_config_if_requested leaves no pending request behind on any exit and parse_args drops a stale one at entry (both refuted the shipped code; fixed); the units of the parse / dump / defaults / instantiate paths (parse_args, parse_object, parse_string, _parse_defaults_and_environ, _load_env_vars, get_defaults, merge_config, _apply_actions, _check_value_key, dump, instantiate_classes) are re-verified with a parser frame: no attribute of the parser is added, removed, rebound or changed in place (parse_args: except the scratch attribute args, shown to be assigned before its only reader); the dataclass arm and _expand_help do not write into the action (both refuted the shipped code; fixed). Bounded only: 3.7k operation histories compared step by step with fresh parsers in fresh processes.'
+LEVEL_TEXT = "Reduction: if every operation restores the state it touches, outcomes cannot depend on the history (induction on its length). Verified: each of the eight @contextmanager helpers that set a ContextVar restores it on the normal and on the exceptional exit; print_config_if_requested leaves no pending request behind on any exit and parse_args drops a stale one at entry (both refuted the shipped code; fixed); the units of the parse / dump / defaults / instantiate paths (parse_args, parse_object, parse_string, _parse_defaults_and_environ, _load_env_vars, get_defaults, merge_config, _apply_actions, _check_value_key, dump, instantiate_classes) are re-verified with a parser frame: no attribute of the parser is added, removed, rebound or changed in place (parse_args: except the scratch attribute args, shown to be assigned before its only reader); the dataclass arm and _expand_help do not write into the action (both refuted the shipped code; fixed). A --print_config request read by parse_args never outlives the call, whatever ends it (a subcommand's parser exiting, --help; refuted the shipped code a third time; fixed). Bounded addition: exit_on_error=True parsers, one-step histories with SystemExit caught x 7 calls. Bounded only: 3.7k operation histories compared step by step with fresh parsers in fresh processes."
 LEVEL_NOTE = "under construction"
 EXPLANATION = "under construction"
 ASSUMPTIONS = []
